@@ -60,4 +60,9 @@ CLAIMED = {
   text="For every enumerated base range all n! orders, the stated families of space insertions, duplications and empty constraints are generated and each variant must give the same (result, error-ness) as the canonical spelling on every probe - a relation between executions, decided for every enumerated variant.",
   note="n <= 3 (quick) / 5 (thorough, every 4th shape at n=5); whitespace patterns are all subsets for <= 10 slots and all singles/pairs beyond, plus a space at every inner position of every version text. Only SP is inserted.",
   ref="DESIGN.md 4 (C16)"),
+ "C17": dict(
+  technique="bounded-exhaustive enumeration of every single-point corruption (delete/replace/insert over a 20-character alphabet at every position, plus scheme-case, operator and prefix damage) of seed ranges against a reference syntax classifier, and of every (comparator, bound, probe) over discriminating version spellings against each scheme's own ecosystem",
+  text="All single-point corruptions of the seed ranges are executed and every one the reference classifier puts in the must-error set must return (false, error); for routing, every comparator x bound x probe over 48 spellings must match the scheme's ecosystem and the run itself proves that each other ecosystem is distinguishable by at least one enumerated pair.",
+  note="Version validity inside the classifier is the scheme's ecosystem parser (as C17 states). The lone '*' is not covered.",
+  ref="DESIGN.md 4 (C17), Appendix A.9"),
 }
